@@ -866,7 +866,11 @@ impl<'p, 's, M: Matcher, W: WriteColor> Sink for StandardSink<'p, 's, M, W> {
         }
         if searcher.binary_detection().convert_byte().is_some() {
             if self.binary_byte_offset.is_some() {
-                return Ok(false);
+                // Lines of a binary file are never printed. Once a match has
+                // been seen there is nothing left to learn. Before that (a
+                // before-context or passthru line) the search has to go on,
+                // or a matching file is reported as not matching at all.
+                return Ok(self.match_count == 0);
             }
         }
 
